@@ -36,7 +36,7 @@ func (interp *Interpreter) Compile(src string) (*Program, error) {
 // CompilePath parses and compiles a Go code located at the given path.
 func (interp *Interpreter) CompilePath(path string) (*Program, error) {
 	if !isFile(interp.filesystem, path) {
-		_, err := interp.importSrc(mainID, path, NoTest)
+		_, _, err := interp.importSrc(mainID, path, NoTest)
 		return nil, err
 	}
 
